@@ -33,6 +33,8 @@ func runC08(c *core.Ctx) core.Meta {
 	// ---------------- R08.5 every work-group is handed out once by the placement algorithms (c09.go) ----------------
 	checkPlacementSiblings(c, NewPkgInfo(c, dispPkg), prov, "R08.5")
 	checkPartitionStarts(c, NewPkgInfo(c, dispPkg))
+	// R08.9: the announced work-group count is reached only when every handed-out work-group was sent (c09.go, R09.4)
+	checkLaunchResponse(c, NewPkgInfo(c, dispPkg), prov, "R08.9")
 
 	// ---------------- R08.2 partial work-group sizes ----------------
 	st2 := c.Rule("R08.2", "the current size of a work-group in each dimension is min(grid - id*wgSize, wgSize) of that same dimension; work-items are spawned up to the current sizes; enumeration advances x fastest, then y, then z", 6)
@@ -118,22 +120,7 @@ func runC08(c *core.Ctx) core.Meta {
 			}
 		}
 	}
-	// Skip(n) = n calls of NextWG
-	if fn := c.MustFunc("R08.2", kernelsPkg, "gridBuilderImpl.Skip"); fn != nil {
-		st2.Instances++
-		calls := false
-		for _, b := range fn.Blocks {
-			for _, in := range b.Instrs {
-				if callsFunc(in, fn.Pkg, "gridBuilderImpl.NextWG") {
-					calls = true
-				}
-			}
-		}
-		st2.Ob(calls)
-		if !calls {
-			c.ReportAt("R08.2", fn, fn.Pos(), "skip-without-nextwg", "Skip no longer advances by calling NextWG: it does not skip accepted work-groups")
-		}
-	}
+	checkSkipCountsAccepted(c, st2, "R08.2")
 	// spawnWorkItems loops bounded by CurrSize
 	if fd := findFuncDecl(c.Pkg(kernelsPkg), "gridBuilderImpl.spawnWorkItems"); fd != nil {
 		var conds []string
@@ -160,144 +147,7 @@ func runC08(c *core.Ctx) core.Meta {
 		c.Report(core.Finding{Rule: "R08.2", Kind: "anchor", Pkg: kernelsPkg, Func: "gridBuilderImpl.spawnWorkItems", Detail: "anchor", Msg: "spawnWorkItems not found"})
 	}
 
-	// ---------------- R08.3 wavefront formation ----------------
-	st3 := c.Rule("R08.3", "a work-item's wavefront is chosen by its in-group id divided by the wavefront size (a new wavefront starts when that quotient changes, since in partial work-groups ids are not contiguous), its lane bit is id modulo the wavefront size, and the wavefront's first flat id is quotient*size; the in-group id is z*SX*SY + y*SX + x, the inverse of the lane-id decomposition used by both register initialisations", 5)
-	if fn := c.MustFunc("R08.3", kernelsPkg, "gridBuilderImpl.formWavefronts"); fn != nil {
-		c.MarkAnalysed(fn)
-		// helpers of the grid builder (a constructor for the wavefront) are expanded at their call sites
-		g := core.BuildGraph(fn, 2, func(cal *ssa.Function) bool { return cal.Pkg == fn.Pkg })
-		idExpr := ""
-		for _, n := range g.Nodes {
-			// the wavefront creation
-			if call, ok := n.Instr.(*ssa.Call); ok && call.Call.StaticCallee() != nil && call.Call.StaticCallee().Name() == "NewWavefront" {
-				st3.Instances++
-				okQ := g.Guarded(n, CmpCut(func(_ *core.Node, op token.Token, x, y ssa.Value) int {
-					px, py := prov.Of(x), prov.Of(y)
-					isQuo := func(s string) bool { return core.ProvMatch(regexp.MustCompile(`/64\)$`), s) }
-					if isQuo(px) || isQuo(py) {
-						if op == token.NEQ {
-							return 1
-						}
-						if op == token.EQL {
-							return -1
-						}
-					}
-					// the running form: ids come in increasing order, so `id >= end` with
-					// end = (id/64)*64 + 64 set whenever a wavefront is started is the same test
-					if strings.Contains(py, "/64)*64)+64)") && strings.Contains(px, ".IDX") {
-						if op == token.GEQ {
-							return 1
-						}
-						if op == token.LSS {
-							return -1
-						}
-					}
-					return 0
-				}))
-				st3.Ob(okQ)
-				st3.Sample("formWavefronts: new wavefront keyed on id/64 changing: %v", okQ)
-				if !okQ {
-					c.ReportAt("R08.3", fn, n.Instr.Pos(), "new-wavefront:key", "a new wavefront is not started on a change of (in-group id / 64): with `id % 64 == 0` a partial work-group of non-power-of-two width folds later rows into an earlier wavefront and two work-items share a lane")
-				}
-			}
-			if s, ok := storeToField(n.Instr, "Wavefront.InitExecMask"); ok {
-				st3.Instances++
-				pv := prov.Of(s.Val)
-				m := core.ProvFind(regexp.MustCompile(`\|\(1<<\((.*)%64\)\)\)$`), pv)
-				st3.Ob(m != nil)
-				if m == nil {
-					c.ReportAt("R08.3", fn, s.Pos(), "exec-bit", "the initial EXEC mask is updated as "+short(pv)+", not by OR-ing 1 << (in-group id % 64)")
-				} else {
-					idExpr = m[1]
-				}
-			}
-			if s, ok := storeToField(n.Instr, "Wavefront.FirstWiFlatID"); ok {
-				st3.Instances++
-				pv := provThroughFrames(prov, n, s.Val)
-				ok2 := core.ProvMatch(regexp.MustCompile(`/64\)\*64\)$`), pv)
-				st3.Ob(ok2)
-				if !ok2 {
-					c.ReportAt("R08.3", fn, s.Pos(), "first-flat-id", "the wavefront's first flat id is "+short(pv)+", not (in-group id / 64) * 64: lane k of the wavefront would not be in-group id first+k")
-				}
-			}
-		}
-		st3.Instances++
-		// z*SizeX*SizeY + y*SizeX + x in any order of terms and factors (the WorkItem.FlattenedID
-		// helper writes the terms the other way round)
-		okID := func() bool {
-			terms := sumOfProducts(idExpr)
-			if len(terms) != 3 {
-				return false
-			}
-			var keys []string
-			for _, t := range terms {
-				var fs []string
-				for _, f := range t {
-					if i := strings.LastIndex(f, "."); i >= 0 {
-						f = f[i+1:]
-					}
-					fs = append(fs, f)
-				}
-				sort.Strings(fs)
-				keys = append(keys, strings.Join(fs, "*"))
-			}
-			sort.Strings(keys)
-			return strings.Join(keys, " + ") == "IDX + IDY*SizeX + IDZ*SizeX*SizeY"
-		}()
-		st3.Ob(okID)
-		st3.Sample("formWavefronts: in-group id = %s", short(idExpr))
-		if !okID {
-			c.ReportAt("R08.3", fn, fn.Pos(), "in-group-id", "the in-group id is "+short(idExpr)+", not z*SizeX*SizeY + y*SizeX + x (full work-group sizes)")
-		}
-	}
-	// decomposition in both register initialisations
-	for _, sp := range []struct{ pkg, fn string }{{emuPkg, "ComputeUnit.initWfRegs"}, {cuPkg, "WfDispatcherImpl.initRegisters"}} {
-		fd := findFuncDecl(c.Pkg(sp.pkg), sp.fn)
-		if fd == nil {
-			c.Report(core.Finding{Rule: "R08.3", Kind: "anchor", Pkg: sp.pkg, Func: sp.fn, Detail: "anchor", Msg: "register initialisation not found"})
-			continue
-		}
-		_, lane := summariseInit(c.Pkg(sp.pkg), fd)
-		want := map[string]string{
-			"z": "z:=i/(wf.WG.SizeX*wf.WG.SizeY)",
-			"y": "y:=i%(wf.WG.SizeX*wf.WG.SizeY)/wf.WG.SizeX",
-			"x": "x:=i%(wf.WG.SizeX*wf.WG.SizeY)%wf.WG.SizeX",
-		}
-		for _, k := range []string{"x", "y", "z"} {
-			st3.Instances++
-			ok := false
-			for _, l := range lane {
-				// the plane size may be written SizeX*SizeY or SizeY*SizeX
-				if l == want[k] || l == strings.ReplaceAll(want[k], "(wf.WG.SizeX*wf.WG.SizeY)", "(wf.WG.SizeY*wf.WG.SizeX)") {
-					ok = true
-				}
-			}
-			st3.Ob(ok)
-			if !ok {
-				c.Report(core.Finding{Rule: "R08.3", Pkg: sp.pkg, Func: sp.fn, Detail: "decompose:" + k, Pos: c.Position(fd.Pos()), Msg: "the lane's " + k + " coordinate is not derived as " + want[k] + ": lane registers do not hold the coordinates of the work-item the grid builder placed in that lane"})
-			}
-		}
-		// the loop covers first..first+64 and the lane is i - first
-		var loopOK, laneOK bool
-		ast.Inspect(fd.Body, func(n ast.Node) bool {
-			if f, ok := n.(*ast.ForStmt); ok && f.Cond != nil {
-				if normExpr(exprStr(f.Cond)) == "i<wf.FirstWiFlatID+64" && f.Init != nil && normExpr(stmtStr(f.Init)) == "i:=wf.FirstWiFlatID" {
-					loopOK = true
-				}
-			}
-			if as, ok := n.(*ast.AssignStmt); ok && len(as.Lhs) == 1 && exprStr(as.Lhs[0]) == "laneID" {
-				if normExpr(exprStr(as.Rhs[0])) == "i-wf.FirstWiFlatID" {
-					laneOK = true
-				}
-			}
-			return true
-		})
-		st3.Instances++
-		st3.Ob(loopOK && laneOK)
-		if !(loopOK && laneOK) {
-			c.Report(core.Finding{Rule: "R08.3", Pkg: sp.pkg, Func: sp.fn, Detail: "lane-loop", Pos: c.Position(fd.Pos()), Msg: "lane ids are not initialised for flat ids FirstWiFlatID .. FirstWiFlatID+63 with lane = id - FirstWiFlatID"})
-		}
-	}
+	checkWavefrontFormation(c, prov, "R08.3")
 
 	checkWGDistribution(c, prov, "R08.4")
 
@@ -699,4 +549,173 @@ func checkPartitionStarts(c *core.Ctx, pi *PkgInfo) {
 			}
 		}
 	}
+}
+
+// checkSkipCountsAccepted (R08.2, shared with C09 as R09.13): GridBuilder.Skip(n) advances by n
+// accepted work-groups - it calls NextWG, which applies the multi-GPU filter - because the
+// partition algorithm positions partition i with Skip(i * share) where share is derived from the
+// filtered NumWG. A Skip that moves the x/y/z cursor arithmetically counts grid positions
+// instead: with a filter the partitions overlap, some work-groups are mapped to several compute
+// units and as many are never mapped.
+func checkSkipCountsAccepted(c *core.Ctx, st *core.RuleStat, rule string) {
+	// Skip(n) = n calls of NextWG
+	if fn := c.MustFunc(rule, kernelsPkg, "gridBuilderImpl.Skip"); fn != nil {
+		st.Instances++
+		calls := false
+		for _, b := range fn.Blocks {
+			for _, in := range b.Instrs {
+				if callsFunc(in, fn.Pkg, "gridBuilderImpl.NextWG") {
+					calls = true
+				}
+			}
+		}
+		st.Ob(calls)
+		if !calls {
+			c.ReportAt(rule, fn, fn.Pos(), "skip-without-nextwg", "Skip no longer advances by calling NextWG: it does not skip accepted work-groups")
+		}
+	}
+}
+
+// checkWavefrontFormation (R08.3, shared with C06 as R06.form): which work-item sits in which
+// lane of which wavefront, and the initial EXEC mask of partial wavefronts.
+func checkWavefrontFormation(c *core.Ctx, prov *core.Prov, rule string) {
+	// ---------------- R08.3 wavefront formation ----------------
+	st3 := c.Rule(rule, "a work-item's wavefront is chosen by its in-group id divided by the wavefront size (a new wavefront starts when that quotient changes, since in partial work-groups ids are not contiguous), its lane bit is id modulo the wavefront size, and the wavefront's first flat id is quotient*size; the in-group id is z*SX*SY + y*SX + x, the inverse of the lane-id decomposition used by both register initialisations", 5)
+	if fn := c.MustFunc(rule, kernelsPkg, "gridBuilderImpl.formWavefronts"); fn != nil {
+		c.MarkAnalysed(fn)
+		// helpers of the grid builder (a constructor for the wavefront) are expanded at their call sites
+		g := core.BuildGraph(fn, 2, func(cal *ssa.Function) bool { return cal.Pkg == fn.Pkg })
+		idExpr := ""
+		for _, n := range g.Nodes {
+			// the wavefront creation
+			if call, ok := n.Instr.(*ssa.Call); ok && call.Call.StaticCallee() != nil && call.Call.StaticCallee().Name() == "NewWavefront" {
+				st3.Instances++
+				okQ := g.Guarded(n, CmpCut(func(_ *core.Node, op token.Token, x, y ssa.Value) int {
+					px, py := prov.Of(x), prov.Of(y)
+					isQuo := func(s string) bool { return core.ProvMatch(regexp.MustCompile(`/64\)$`), s) }
+					if isQuo(px) || isQuo(py) {
+						if op == token.NEQ {
+							return 1
+						}
+						if op == token.EQL {
+							return -1
+						}
+					}
+					// the running form: ids come in increasing order, so `id >= end` with
+					// end = (id/64)*64 + 64 set whenever a wavefront is started is the same test
+					if strings.Contains(py, "/64)*64)+64)") && strings.Contains(px, ".IDX") {
+						if op == token.GEQ {
+							return 1
+						}
+						if op == token.LSS {
+							return -1
+						}
+					}
+					return 0
+				}))
+				st3.Ob(okQ)
+				st3.Sample("formWavefronts: new wavefront keyed on id/64 changing: %v", okQ)
+				if !okQ {
+					c.ReportAt(rule, fn, n.Instr.Pos(), "new-wavefront:key", "a new wavefront is not started on a change of (in-group id / 64): with `id % 64 == 0` a partial work-group of non-power-of-two width folds later rows into an earlier wavefront and two work-items share a lane")
+				}
+			}
+			if s, ok := storeToField(n.Instr, "Wavefront.InitExecMask"); ok {
+				st3.Instances++
+				pv := prov.Of(s.Val)
+				m := core.ProvFind(regexp.MustCompile(`\|\(1<<\((.*)%64\)\)\)$`), pv)
+				st3.Ob(m != nil)
+				if m == nil {
+					c.ReportAt(rule, fn, s.Pos(), "exec-bit", "the initial EXEC mask is updated as "+short(pv)+", not by OR-ing 1 << (in-group id % 64)")
+				} else {
+					idExpr = m[1]
+				}
+			}
+			if s, ok := storeToField(n.Instr, "Wavefront.FirstWiFlatID"); ok {
+				st3.Instances++
+				pv := provThroughFrames(prov, n, s.Val)
+				ok2 := core.ProvMatch(regexp.MustCompile(`/64\)\*64\)$`), pv)
+				st3.Ob(ok2)
+				if !ok2 {
+					c.ReportAt(rule, fn, s.Pos(), "first-flat-id", "the wavefront's first flat id is "+short(pv)+", not (in-group id / 64) * 64: lane k of the wavefront would not be in-group id first+k")
+				}
+			}
+		}
+		st3.Instances++
+		// z*SizeX*SizeY + y*SizeX + x in any order of terms and factors (the WorkItem.FlattenedID
+		// helper writes the terms the other way round)
+		okID := func() bool {
+			terms := sumOfProducts(idExpr)
+			if len(terms) != 3 {
+				return false
+			}
+			var keys []string
+			for _, t := range terms {
+				var fs []string
+				for _, f := range t {
+					if i := strings.LastIndex(f, "."); i >= 0 {
+						f = f[i+1:]
+					}
+					fs = append(fs, f)
+				}
+				sort.Strings(fs)
+				keys = append(keys, strings.Join(fs, "*"))
+			}
+			sort.Strings(keys)
+			return strings.Join(keys, " + ") == "IDX + IDY*SizeX + IDZ*SizeX*SizeY"
+		}()
+		st3.Ob(okID)
+		st3.Sample("formWavefronts: in-group id = %s", short(idExpr))
+		if !okID {
+			c.ReportAt(rule, fn, fn.Pos(), "in-group-id", "the in-group id is "+short(idExpr)+", not z*SizeX*SizeY + y*SizeX + x (full work-group sizes)")
+		}
+	}
+	// decomposition in both register initialisations
+	for _, sp := range []struct{ pkg, fn string }{{emuPkg, "ComputeUnit.initWfRegs"}, {cuPkg, "WfDispatcherImpl.initRegisters"}} {
+		fd := findFuncDecl(c.Pkg(sp.pkg), sp.fn)
+		if fd == nil {
+			c.Report(core.Finding{Rule: rule, Kind: "anchor", Pkg: sp.pkg, Func: sp.fn, Detail: "anchor", Msg: "register initialisation not found"})
+			continue
+		}
+		_, lane := summariseInit(c.Pkg(sp.pkg), fd)
+		want := map[string]string{
+			"z": "z:=i/(wf.WG.SizeX*wf.WG.SizeY)",
+			"y": "y:=i%(wf.WG.SizeX*wf.WG.SizeY)/wf.WG.SizeX",
+			"x": "x:=i%(wf.WG.SizeX*wf.WG.SizeY)%wf.WG.SizeX",
+		}
+		for _, k := range []string{"x", "y", "z"} {
+			st3.Instances++
+			ok := false
+			for _, l := range lane {
+				// the plane size may be written SizeX*SizeY or SizeY*SizeX
+				if l == want[k] || l == strings.ReplaceAll(want[k], "(wf.WG.SizeX*wf.WG.SizeY)", "(wf.WG.SizeY*wf.WG.SizeX)") {
+					ok = true
+				}
+			}
+			st3.Ob(ok)
+			if !ok {
+				c.Report(core.Finding{Rule: rule, Pkg: sp.pkg, Func: sp.fn, Detail: "decompose:" + k, Pos: c.Position(fd.Pos()), Msg: "the lane's " + k + " coordinate is not derived as " + want[k] + ": lane registers do not hold the coordinates of the work-item the grid builder placed in that lane"})
+			}
+		}
+		// the loop covers first..first+64 and the lane is i - first
+		var loopOK, laneOK bool
+		ast.Inspect(fd.Body, func(n ast.Node) bool {
+			if f, ok := n.(*ast.ForStmt); ok && f.Cond != nil {
+				if normExpr(exprStr(f.Cond)) == "i<wf.FirstWiFlatID+64" && f.Init != nil && normExpr(stmtStr(f.Init)) == "i:=wf.FirstWiFlatID" {
+					loopOK = true
+				}
+			}
+			if as, ok := n.(*ast.AssignStmt); ok && len(as.Lhs) == 1 && exprStr(as.Lhs[0]) == "laneID" {
+				if normExpr(exprStr(as.Rhs[0])) == "i-wf.FirstWiFlatID" {
+					laneOK = true
+				}
+			}
+			return true
+		})
+		st3.Instances++
+		st3.Ob(loopOK && laneOK)
+		if !(loopOK && laneOK) {
+			c.Report(core.Finding{Rule: rule, Pkg: sp.pkg, Func: sp.fn, Detail: "lane-loop", Pos: c.Position(fd.Pos()), Msg: "lane ids are not initialised for flat ids FirstWiFlatID .. FirstWiFlatID+63 with lane = id - FirstWiFlatID"})
+		}
+	}
+
 }
